@@ -80,10 +80,15 @@ X scaled(const X& x, int s) {
     return x;
   } else {
     int p = 0;
-    if (s < 7)
+    if (s < 7) {
       p = dim<X>(s);
-    else
+    } else if (s == 7) {
       for (int i = 0; i < 7; i++) p += dim<X>(i) * (i % 3 + 1) * (i % 2 ? -1 : 1);
+    } else {
+      // s == 8, 9: every base unit by 4^K resp. 4^-K - the same relation many orders of magnitude away
+      const int K = std::is_same_v<T, float> ? 5 : 18;
+      for (int i = 0; i < 7; i++) p += dim<X>(i) * (s == 8 ? K : -K);
+    }
     T c[9];
     vf::comps(x, c);
     const T f = std::ldexp((T)1, 2 * p);
@@ -159,10 +164,14 @@ void homogeneity_impl(const char* sig, char kind, F f, std::index_sequence<I...>
         vf::stat("skipped_nonfinite");
         continue;
       }
-      for (int s = 0; s < 8; s++) {
+      for (int s = 0; s < 10; s++) {
         if (s == 7 && !thorough && v) continue;
         const R rs = f(scaled(std::get<I>(args), s)...);
         const R want = scaled(r0, s);
+        if (s >= 8 && (!finite(rs) || !finite(want))) {
+          vf::stat("skipped_nonfinite");
+          continue;
+        }
         T a[9], b[9];
         vf::comps(rs, a);
         vf::comps(want, b);
